@@ -462,6 +462,9 @@ def decompress_destripe_cbin(
     sos = scipy.signal.butter(**butter_kwargs, output="sos")
     nbytes = dtype(1).nbytes
     nprocesses = nprocesses or int(cpu_count() - cpu_count() / 4)
+    # each worker needs at least one full batch: with more workers than batches a worker would start inside
+    # (or beyond) the last batch, and the output would depend on the number of workers or the run would fail
+    nprocesses = int(max(1, min(nprocesses, sr.ns // NBATCH)))
     win = pyfftw.empty_aligned((ncv, NBATCH), dtype="float32")
     WIN = pyfftw.empty_aligned((ncv, int(NBATCH / 2 + 1)), dtype="complex64")
     fft_object = pyfftw.FFTW(win, WIN, axes=(1,), direction="FFTW_FORWARD", threads=4)
